@@ -284,7 +284,10 @@ class Ctx:
         replay["what"] = what
         with open(path, "w") as f:
             json.dump(replay, f, indent=1, default=_jd)
-        print("VIOLATION property=%s replay=%s" % (self.pid, path), flush=True)
+        if getattr(self, "extra", False):
+            print("EXTRA-VIOLATION module=%s replay=%s" % (self.pid[2:], path), flush=True)
+        else:
+            print("VIOLATION property=%s replay=%s" % (self.pid, path), flush=True)
         print("  what: %s" % what, flush=True)
         print("  signature: %s" % signature, flush=True)
         return True
